@@ -87,10 +87,10 @@ const P_W_END: usize = 19;
 const P_W_NESTED: usize = 20;
 const P_RERR_BEFORE: usize = 21;
 const P_RERR_AFTER: usize = 22;
-const P_FRAMING_KEY: usize = 23; // 3 framings x 5 key forms
-const P_ASSERT: usize = 38; // 11
-const P_JSON: usize = 49; // reader x7, escaped keys
-const P_TYPE: usize = 57;
+const P_FRAMING_KEY: usize = 23; // 3 framings x 6 key forms
+const P_ASSERT: usize = 41; // 11
+const P_JSON: usize = 52; // reader x7, escaped keys
+const P_TYPE: usize = 60;
 
 const PERMS3: [[u8; 3]; 6] = [[0, 1, 2], [0, 2, 1], [1, 0, 2], [1, 2, 0], [2, 0, 1], [2, 1, 0]];
 
@@ -113,7 +113,7 @@ impl ProbeSpace {
         names.push("read_error_before_all_fields".into());
         names.push("read_error_after_all_fields".into());
         for f in ["self_delim", "len_prefixed", "positional"] {
-            for k in ["visit_str", "visit_borrowed_str", "visit_string", "visit_bytes", "visit_borrowed_bytes"] {
+            for k in ["visit_str", "visit_borrowed_str", "visit_string", "visit_bytes", "visit_borrowed_bytes", "visit_u64_index"] {
                 names.push(format!("medium_{}_{}", f, k));
             }
         }
@@ -389,7 +389,7 @@ impl Agg {
         }
         self.runs_with_fault[nf.min(3)] += 1;
         if let AnyPlan::Event(p) = plan {
-            self.probes[P_FRAMING_KEY + (p.medium.framing as usize) * 5 + p.medium.key_form as usize] += 1;
+            self.probes[P_FRAMING_KEY + (p.medium.framing as usize) * 6 + p.medium.key_form as usize] += 1;
         }
 
         if e.is_dec && keyed && o.rfired.is_empty() && o.read_ok.is_some() && o.jstats.r_ioerr + o.jstats.trunc + o.jstats.flip == 0 {
